@@ -67,6 +67,8 @@ func TestC07(t *testing.T) {
 	alpha = append(alpha,
 		Op{Kind: "regnode", ID: "m", NT: M}, Op{Kind: "regnode", ID: "k", NT: K},
 		Op{Kind: "regpipe", Type: "t1", Pid: "p0", IDs: []string{"f", "m", "k"}},
+		// a second pipeline id of the same type: looking one id up must not depend on what else the type holds
+		Op{Kind: "regpipe", Type: "t0", Pid: "p1", IDs: []string{"m", "k"}},
 		Op{Kind: "rmnode", ID: "f"}, Op{Kind: "rmpipe", Type: "t0", Pid: "p0"}, Op{Kind: "rmpipenodes", Type: "t0", Pid: "p0"})
 	// the same alphabet plus registrations that offer the node object already registered under the id
 	alphaX := append([]Op{}, alpha...)
